@@ -58,7 +58,8 @@ def scenario(draw) -> Dict[str, Any]:
                          # order of the records inside the datagram: SRV, TXT, A, AAAA or the reverse (address records first)
                          'rev': draw(st.booleans())})
     return {'jitter': draw(st.integers(0, 10**6)), 'timeout': timeout, 'pre': pre, 'arrivals': arrivals,
-            'given_server': draw(st.sampled_from([None, None, None, 0, 1])), 'qtype': draw(st.sampled_from([None, None, 'QU', 'QM']))}
+            'given_server': draw(st.sampled_from([None, None, None, 0, 1])), 'qtype': draw(st.sampled_from([None, None, 'QU', 'QM'])),
+            'scoped_twin': draw(st.sampled_from([False, False, False, True]))}
 
 
 def strategy(tier: str):
@@ -80,6 +81,16 @@ def rr_txt(ttl: int) -> Dict[str, Any]:
 def rr_addr(host_i: int, addr: str, ttl: int) -> Dict[str, Any]:
     b = ipaddress.ip_address(addr).packed
     return rp.wire_rr_of_ident(('A' if len(b) == 4 else 'AAAA', HOSTS[host_i], b.hex()), ttl)
+
+
+def _scoped_text(packed: bytes, scope: Any) -> str:
+    """how an address reads with its scope (link-local IPv6 only), written from the packed bytes by the harness"""
+    import ipaddress
+
+    a = ipaddress.ip_address(packed)
+    if a.version == 6 and a.is_link_local and scope:
+        return f'{a.compressed}%{scope}'
+    return a.compressed
 
 
 class Exec:
@@ -144,6 +155,18 @@ class Exec:
         self._inject(w, host, groups['expired'], nid())
         await asyncio.sleep(3.0)                       # the TTL-2 records expired 1 s ago, stale ones are 5 of 8 s old
         self._inject(w, host, groups['fresh'], nid())
+        if case.get('scoped_twin') and pre['srv'] == 'fresh':
+            # the same link-local address of the SRV target heard on the IPv4 socket (no scope) and on the IPv6 socket (its scope):
+            # two address records of the host, both have to be loaded
+            twin_rr = rr_addr(pre['srv_host'], 'fe80::beef', 120)
+            twin = wire.encode({'id': nid(), 'flags': 0x8400, 'qd': [], 'an': [twin_rr], 'ns': [], 'ar': []})
+            w.gseq += 1
+            self.log.append({'g': w.gseq, 't': w.now_ms, 'ident': rp.ident_of_wire_rr(twin_rr), 'ttl': 120})
+            w.net.inject(host, twin, PEER)
+            # (the way a dual-stack socket reports an IPv6 source: a 4-tuple whose last element is the interface's scope id)
+            # (other message id: byte-identical datagrams within a second are dropped as duplicates)
+            twin2 = wire.encode({'id': nid(), 'flags': 0x8400, 'qd': [], 'an': [twin_rr], 'ns': [], 'ar': []})
+            host.endpoints[0].proto.datagram_received(twin2, ('fe80::9', 5353, 0, 3))
         await asyncio.sleep(0.01)
         # ---- the lookup --------------------------------------------------------------------------------
         qt = {None: None, 'QU': DNSQuestionType.QU, 'QM': DNSQuestionType.QM}[case['qtype']]
@@ -155,6 +178,11 @@ class Exec:
         self.cache_at_start = [(rp_ident, r.created, r.ttl) for store in zc.cache.cache.values() for r in store
                                for rp_ident in [_ident(r)] if rp_ident is not None]
         self.n_trace_start = len(w.net.trace)
+        self.scoped_at_start: Dict[str, set] = {}
+        for store in zc.cache.cache.values():
+            for r in store:
+                if type(r).__name__ == 'DNSAddress' and not r.is_expired(self.t_start):
+                    self.scoped_at_start.setdefault(r.name.lower(), set()).add(_scoped_text(r.address, r.scope_id))
         for a in sorted(case['arrivals'], key=lambda x: x['off']):
             w.loop.call_at(w.clock.t + a['off'] / 1000.0, self._arrival, w, host, a, nid())
         try:
@@ -165,6 +193,7 @@ class Exec:
         self.g_ret, self.t_ret = w.gseq, w.now_ms
         self.fields = {'server': info.server, 'port': info.port, 'priority': info.priority, 'weight': info.weight,
                        'text': info.text, 'addrs': [a.packed.hex() for a in info.ip_addresses_by_version(_ALL())]}
+        self.scoped_got = set(info.parsed_scoped_addresses())
         await asyncio.sleep(case['timeout'] / 1000.0 + 0.3)
 
     def _arrival(self, w: sim.World, host: sim.Host, a: Dict[str, Any], mid: int) -> None:
@@ -280,6 +309,13 @@ def check(case: Dict[str, Any]) -> Dict[str, Any]:
         if set(f['addrs']) != start_addrs:
             raise Violation('lookup loaded from the cache does not list exactly the unexpired address records of the host',
                             dict(det, want=sorted(start_addrs)), tag='cache-first-addresses')
+        want_scoped = ex.scoped_at_start.get((host0 or '').lower(), set())
+        if case.get('scoped_twin') and want_scoped and ex.scoped_got != want_scoped:
+            raise Violation('lookup loaded from the cache does not list every unexpired address record of the host (one link-local '
+                            'address cached once per interface it was heard on)', dict(det, want=sorted(want_scoped), got=sorted(ex.scoped_got)),
+                            tag='cache-first-scoped-addresses')
+        if case.get('scoped_twin') and len(want_scoped) > len(start_addrs):
+            classes.append('link-local-address-cached-under-two-scopes')
     elif queries:
         # (5) first query QU unless QM forced; later QM
         for k, e in enumerate(queries):
